@@ -1,5 +1,7 @@
 #!/bin/bash
-# Offline setup: warm the Go build cache for every harness and generate the key ring.
+# Offline setup: warm the Go build cache for every harness (with the overlay each check uses), generate the key
+# ring, and self-test the source rewriter: the repository's own serviceinfo, kex, nistkdf and root-package tests
+# must pass against the rewritten sources with the scheduler shims in pass-through mode.
 set -u
 cd /verif || exit 1
 export GOFLAGS=-mod=mod GOPROXY=off
@@ -10,6 +12,18 @@ rc=0
 go build -tags verif -overlay .cache/overlay/setup.json -o .cache/bin/keygen ./cmd/keygen && .cache/bin/keygen || rc=1
 for d in checks/*/; do
   n=$(basename "$d")
-  go build -tags verif -overlay .cache/overlay/setup.json -o .cache/bin/$n ./checks/$n 2>&1 | tail -n 5 || rc=1
+  ovl=.cache/overlay/setup.json
+  if [ -x "checks/$n/overlay.sh" ]; then
+    ovl=.cache/overlay/$n.json
+    "checks/$n/overlay.sh" "$ovl" || { echo "setup: overlay for $n failed"; rc=1; continue; }
+  fi
+  go build -tags verif -overlay "$ovl" -o .cache/bin/$n ./checks/$n 2>&1 | tail -n 5 || rc=1
 done
+# rewriter self-test (pass-through mode): the repository's tests against the rewritten sources
+if [ -f .cache/overlay/c19.json ]; then
+  for pkg in ./serviceinfo/ ./kex/ ./internal/nistkdf/ .; do
+    (cd /repo && go test -vet=off -count=1 -overlay /verif/.cache/overlay/c19.json "$pkg" 2>&1 | tail -n 3) | grep -q "^ok" || { echo "setup: rewriter self-test failed for $pkg"; rc=1; }
+  done
+fi
+(cd /verif && go test ./internal/vsync/ ./internal/explore/ 2>&1 | tail -n 3)
 exit $rc
